@@ -376,4 +376,87 @@ theorem fill_below_ok (base : Sig) (outer inner : Memos) (h : MemoOk base (outer
   · exact fillMemos_ok base inner (fun t ht => h t (by simp [ht])) s hs
 
 
+/-! ### `_int2float` (pd2np) -/
+
+mutual
+  theorem int2float_of_no : ∀ (v : Val), v.hasIntArr = false → int2float v = v
+    | .cell .none, _ => rfl
+    | .cell (.bool _), _ => rfl
+    | .cell (.int _), _ => rfl
+    | .cell (.flt _), _ => rfl
+    | .cell .nan, _ => rfl
+    | .cell .pinf, _ => rfl
+    | .cell .ninf, _ => rfl
+    | .cell (.dt _), _ => rfl
+    | .cell (.str s), h => by
+        simp only [Val.hasIntArr] at h
+        simp [int2float, h]
+    | .list xs, h => by
+        simp only [Val.hasIntArr] at h
+        simp only [int2float, int2floatList_of_no xs h]
+    | .tuple xs, h => by
+        simp only [Val.hasIntArr] at h
+        simp only [int2float, int2floatList_of_no xs h]
+    | .dict kvs, h => by
+        simp only [Val.hasIntArr] at h
+        simp only [int2float, int2floatKVs_of_no kvs h]
+  theorem int2floatList_of_no : ∀ (xs : List Val), hasIntArrList xs = false → int2floatList xs = xs
+    | [], _ => rfl
+    | x :: xs, h => by
+        simp only [hasIntArrList, Bool.or_eq_false_iff] at h
+        simp only [int2floatList, int2float_of_no x h.1, int2floatList_of_no xs h.2]
+  theorem int2floatKVs_of_no : ∀ (kvs : List (String × Val)), hasIntArrKVs kvs = false → int2floatKVs kvs = kvs
+    | [], _ => rfl
+    | (k, v) :: kvs, h => by
+        simp only [hasIntArrKVs, Bool.or_eq_false_iff] at h
+        simp only [int2floatKVs, int2float_of_no v h.1, int2floatKVs_of_no kvs h.2]
+end
+
+theorem int2floatKw_of_no (exc : List String) : ∀ (kvs : PDict), hasIntArrKVs kvs = false → int2floatKw exc kvs = kvs
+  | [], _ => rfl
+  | (k, v) :: kvs, h => by
+      simp only [hasIntArrKVs, Bool.or_eq_false_iff] at h
+      simp only [int2floatKw, int2float_of_no v h.1, int2floatKw_of_no exc kvs h.2, ite_self]
+
+/-- without an int ndarray among the arguments `pd2np` forwards the call it received -/
+theorem pd2npCall_of_no (exc : List String) (c : Call) (h : c.hasIntArr = false) : pd2npCall exc c = c := by
+  cases c with
+  | mk args kw =>
+    simp only [Call.hasIntArr, Bool.or_eq_false_iff] at h
+    simp only [pd2npCall, int2floatList_of_no args h.1, int2floatKw_of_no exc kw h.2]
+
+theorem hasIntArrKVs_false_iff : ∀ (kvs : PDict), hasIntArrKVs kvs = false ↔ ∀ p ∈ kvs, p.2.hasIntArr = false
+  | [] => by simp [hasIntArrKVs]
+  | (k, v) :: kvs => by
+      simp only [hasIntArrKVs, Bool.or_eq_false_iff, List.mem_cons, forall_eq_or_imp, hasIntArrKVs_false_iff kvs]
+
+/-- the call `loops` forwards holds the same argument values: no int ndarray appears -/
+theorem loopsCall_hasIntArr (s : Sig) (c : Call) (h : c.hasIntArr = false) : (loopsCall s c).hasIntArr = false := by
+  cases c with
+  | mk args kw =>
+    simp only [Call.hasIntArr, Bool.or_eq_false_iff] at h
+    obtain ⟨ha, hk⟩ := h
+    have hk' := (hasIntArrKVs_false_iff kw).1 hk
+    unfold loopsCall
+    cases args with
+    | cons a as =>
+      simp only [Call.hasIntArr, Bool.or_eq_false_iff]
+      refine ⟨ha, (hasIntArrKVs_false_iff _).2 fun p hp => hk' p (List.mem_filter.1 hp).1⟩
+    | nil =>
+      cases hp : s.params with
+      | nil => simp [Call.hasIntArr, hk, hasIntArrList]
+      | cons top ps =>
+        simp only
+        cases hl : kw.lookup top with
+        | none => simp [Call.hasIntArr, hk, hasIntArrList]
+        | some arg =>
+          simp only [Call.hasIntArr, Bool.or_eq_false_iff, hasIntArrList, Bool.or_false]
+          refine ⟨?_, (hasIntArrKVs_false_iff _).2 fun p hp =>
+            hk' p (List.mem_filter.1 (List.mem_filter.1 hp).1).1⟩
+          have hm : (top, arg) ∈ kw := by
+            have := List.lookup_eq_some_iff.1 hl
+            obtain ⟨l1, l2, he, _⟩ := this
+            rw [he]; simp
+          exact hk' _ hm
+
 end Pyg
